@@ -225,6 +225,15 @@ main(int argc, char** argv)
         first = false;
       }
       printf("]");
+      // the end / rend iterators: what a walk runs into, and recognised as such
+      {
+        ZixTreeIter* e = zix_tree_begin(tree);
+        while (!zix_tree_iter_is_end(e)) e = zix_tree_iter_next(e);
+        ZixTreeIter* r = zix_tree_rbegin(tree);
+        while (!zix_tree_iter_is_rend(r)) r = zix_tree_iter_prev(r);
+        if (e != zix_tree_end(tree) || r != zix_tree_rend(tree) || !zix_tree_iter_is_end(zix_tree_end(tree)) || !zix_tree_iter_is_rend(zix_tree_rend(tree)))
+          printf(" SPEC-FAIL:end-or-rend-iterator-is-not-where-the-walk-stops");
+      }
       wb();
     } else if (!strcmp(tok[0], "free")) {
       const int before = n_destroyed;
